@@ -100,7 +100,7 @@ func c19SelectHistory(r *vc.Run, pi, h int, pol string) {
 	rnd := vc.NewRand(r.Seed, fmt.Sprintf("c19-%s-%d", pol, h))
 	addrs := []string{"10.0.0.1:8091", "10.0.0.2:8091", "10.0.0.3:8092", "10.0.0.3:8091"}
 	type sess struct {
-		id, addr        string
+		id, addr         string
 		open, registered bool
 	}
 	var all []*sess
@@ -293,7 +293,9 @@ func c19Cut(r *vc.Run, e *atEnv, rnd *vc.Rand, idx int, point, kind string, rep 
 	if point == "in-flight" {
 		// hold the reply to a GlobalBegin, cut while the caller waits
 		held := make(chan struct{}, 4)
-		e.w.TC.AddRule(&faketc.Rule{Name: "c19-hold", Match: func(q *faketc.Req) bool { return q.Msg.Type == wire.TGlobalBegin && strings.HasPrefix(q.TxName, "c19-inflight") }, Do: func(q *faketc.Req) bool {
+		e.w.TC.AddRule(&faketc.Rule{Name: "c19-hold", Match: func(q *faketc.Req) bool {
+			return q.Msg.Type == wire.TGlobalBegin && strings.HasPrefix(q.TxName, "c19-inflight")
+		}, Do: func(q *faketc.Req) bool {
 			held <- struct{}{}
 			return true // never answered on this session
 		}})
